@@ -298,6 +298,18 @@ class World:
 
     # -- rows ------------------------------------------------------------------------------------
     def row(self, tag):
+        x = self._row_values(tag)
+        if self.cfg.get("key_order") == "shuffled":
+            # the observation's key order need not follow the feature-name list
+            items = list(x[0].items())
+            k = H(self.seed, "ko", tag) % len(items)
+            items = items[k:] + items[:k]
+            if H(self.seed, "kr", tag) % 2:
+                items.reverse()
+            return dict(items), x[1]
+        return x
+
+    def _row_values(self, tag):
         x = {}
         for j, n in enumerate(self.names):
             if self.values == "unique":
